@@ -26,6 +26,45 @@ EOS_UNPROCESSED = ["lf", "lf4", "lf6", "lf8", "lf4_2", "lf8_6_4"]
 WH_COORDS = ["jacobi", "democraticheliocentric", "whds", "barycentric"]
 
 
+# ----------------------------------------------------------------------------- dimension map
+DIMS = {}
+# cross-cutting dimensions this check considers applicable to C10 (a zero count is a broken obligation)
+DIM_REQUIRED = [
+    "janus: gravity basic", "janus: gravity compensated", "janus: gravity none + additional force", "janus: softening != 0", "janus: G != 1",
+    "janus: scale_pos != scale_vel", "janus: N_active < N, testparticle_type 0", "janus: N_active < N, testparticle_type 1",
+    "janus: massless test particles", "janus: massive test particles", "janus: single active body", "janus: zero-mass active body",
+    "janus: callback pre_timestep_modifications", "janus: callback post_timestep_modifications", "janus: callback additional_forces (read-only probe)",
+    "janus: additional force, velocity independent", "janus: heartbeat + integrate()", "janus: dt < 0 first", "janus: step longer than the inner period",
+    "janus: split calls with synchronize/energy between", "janus: save + restore mid-way", "janus: copy() mid-way", "janus: restore at the turning point",
+    "janus: dt changed by the user mid-run", "janus: t0 huge (|t|/dt ~ 1e12)", "janus: COM offset + boost", "janus: N > 128", "janus: integrator name upper case",
+    "janus tie: N_active < N", "janus tie: callbacks", "janus tie: additional force", "janus tie: softening", "janus tie: no snapping step",
+    "sym: safe_mode = 0, synchronize only at the turning point", "sym: restore at the turning point", "sym: dt changed by the user mid-run",
+    "sym: COM offset + boost (no move_to_com)", "sym: massless test particles", "sym: callbacks pre/post", "sym: additional force, velocity independent",
+    "sym: variational particles with non-zero data", "sym: dt < 0 first", "sym: hyperbolic member", "sym: eccentric member, long steps", "sym: G != 1",
+    "sei: dt changed by the user mid-run", "sei: restore at the turning point", "sei: shear boundary crossed, no self-gravity", "sei: OMEGAZ != OMEGA",
+    "kepler primitive: hyperbolic dt<0 bisection", "kepler primitive: elliptic dt<0 quartic",
+]
+
+
+def dim(name, n=1):
+    DIMS[name] = DIMS.get(name, 0) + n
+
+
+def reload_sim(R, s, how):
+    """every public restore path that keeps the integrator state: binary file round trip, copy()"""
+    if how == "copy":
+        s2 = s.copy()
+    else:
+        path = os.path.join(os.environ.get("VERIF_TMP", "/tmp"), "c10_%d_%d.bin" % (os.getpid(), id(s) % 100000))
+        if os.path.exists(path):
+            os.remove(path)
+        s.save_to_file(path)
+        s2 = R.rb.Simulation(path)
+        os.remove(path)
+    s2._c10 = s._c10
+    return s2
+
+
 # ----------------------------------------------------------------------------- generators
 def gen_planetary(rng, n, calm=False, moderate=False):
     """star + n-1 bodies on nested orbits (heliocentric construction, arbitrary frame offset).
@@ -118,8 +157,18 @@ def gen_fc(rng, G, parts, full=True, extra=False):
     if rng.chance(0.2):
         fc["k"] = rng.loguniform(1e-3, 1e-1) * G
     fc["cb"] = tuple(cb)
-    if extra and rng.chance(0.15):
-        fc["gravity"] = "compensated"
+    if extra:
+        r = rng.uniform()
+        if r < 0.15:
+            fc["gravity"] = "compensated"
+        elif r < 0.25:
+            fc["gravity"] = "none"                # then the additional force is the only force
+            if fc["k"] == 0:
+                fc["k"] = rng.loguniform(1e-2, 1.0) * G
+        if rng.chance(0.1) and n >= 3:
+            na = n if fc["nactive"] == -1 else fc["nactive"]
+            if na >= 2:
+                parts[rng.randint(1, na - 1)][0] = 0.0      # a zero-mass body among the active ones
     return fc
 
 
@@ -354,6 +403,12 @@ def run(c):
     probe_kepler(c, R)
     search_flyby(c, R)
     velocity_dependent(c, R, exe)
+    c.cov["dimensions"] = {k: DIMS.get(k, 0) for k in DIM_REQUIRED}
+    c.cov["dimensions"].update({k: v for k, v in DIMS.items() if k not in DIM_REQUIRED})
+    for k in DIM_REQUIRED:
+        if DIMS.get(k, 0) == 0:
+            c.broken.append("dimension not covered in this run: " + k)
+            c.log("DIMENSION NOT COVERED:", k)
 
 
 # ----------------------------------------------------------------------------- correspondence
@@ -395,6 +450,10 @@ def corr_janus(c, R, exe):
         expect.append(recs)
         meta.append(dict(order=order, N=n, scale_pos=sp, scale_vel=sv, dt=dt, segs=segs, G=G, fc=fc, parts=parts, every=every))
         c.count(("corr-janus", order, n, sp, sv, dt < 0) + fc_class(fc), n=sum(s[1] for s in segs))
+        for cond, nm in ((fc["nactive"] not in (-1, n), "N_active < N"), (bool(fc["cb"]), "callbacks"), (fc["k"] != 0, "additional force"),
+                         (fc["soft"] != 0, "softening"), (segs[0][0] != 0.0, "no snapping step")):
+            if cond:
+                dim("janus tie: " + nm)
         fch[str(fc_class(fc)[:3])] = fch.get(str(fc_class(fc)[:3]), 0) + 1
     c.cov["janus_tie_config_histogram(test_particles,testparticle_type,additional_force)"] = fch
     c.cov["janus_tie_callback_calls"] = cbcalls
@@ -704,21 +763,26 @@ def corr_laws(c, exe):
 
 
 # ----------------------------------------------------------------------------- search
-def janus_roundtrip(R, order, sp, sv, fc, parts, dt, nst, mode="steps", again=False):
+def janus_roundtrip(R, order, sp, sv, fc, parts, dt, nst, mode="steps", again=False, dt2=None, t0=None, name="janus"):
     """snap to the grid (one dt=0 step), nst steps with dt, `sim.dt = -sim.dt`, nst steps.
     mode: steps | interleave (harmless calls between chunks: synchronize, energy, angular momentum) |
-    integrate (reb_simulation_integrate without exact finish time, with a heartbeat installed).
-    Returns dict(i0,d0,i1,i2,d2,i3?,flag_bad,sim)."""
+    integrate (reb_simulation_integrate without exact finish time, with a heartbeat installed) |
+    save / copy (binary file round trip / copy() in the middle of the forward leg, continue on the restored object) |
+    restore_turn (binary file round trip at the turning point).  dt2: the user changes dt in the middle of the
+    forward leg (the backward leg mirrors it).  Returns dict(i0,d0,i1,i2,d2,i3?,flag_bad,sim)."""
     if mode == "integrate":
         fc = dict(fc, cb=tuple(fc["cb"]) + ("hb",))
-    s = R.sim(fc, parts, "janus", janus=(order, sp, sv))
+    s = R.sim(fc, parts, name, janus=(order, sp, sv))
+    if t0 is not None:
+        s.t = t0
     s.dt = 0.0
     s.step()                                   # snap the initial conditions to the grid
     out = dict(sim=s, flag_bad=0)
     out["flag_bad"] += not R.flag_clear(s)
     out["i0"], out["d0"] = R.ints(s), [d2h(v) for v in R.doubles(s)]
+    fwd = [(dt, nst)] if dt2 is None else [(dt, nst - nst // 2), (dt2, nst // 2)]
 
-    def leg(n):
+    def leg(s, n):
         if mode == "interleave":
             k = 0
             while k < n:
@@ -734,22 +798,36 @@ def janus_roundtrip(R, order, sp, sv, fc, parts, dt, nst, mode="steps", again=Fa
             s.integrate(s.t + (n - 0.5) * s.dt, exact_finish_time=0)
             if s.steps_done - before != n:
                 out["steps_mismatch"] = (s.steps_done - before, n)
+        elif mode in ("save", "copy") and n >= 2:
+            s.steps(n // 2)
+            s = reload_sim(R, s, mode)
+            out["flag_bad"] += not R.flag_clear(s)
+            s.steps(n - n // 2)
         else:
             s.steps(n)
         out["flag_bad"] += not R.flag_clear(s)
-    s.dt = dt
-    leg(nst)
+        return s
+    for d, n in fwd:
+        s.dt = d
+        s = leg(s, n)
     out["i1"] = R.ints(s)
+    out["sim"] = s
     if max(abs(v) for v in out["i1"]) >= 2 ** 62:
         out["near_range"] = True
         return out
-    s.dt = -s.dt
-    leg(nst)
+    if mode == "restore_turn":
+        s = reload_sim(R, s, "save")
+    for d, n in reversed(fwd):
+        s.dt = -d if dt2 is not None else -s.dt      # a single leg: the user's `sim.dt = -sim.dt`
+        s = leg(s, n)
+        if dt2 is None:
+            break
     out["i2"], out["d2"] = R.ints(s), [d2h(v) for v in R.doubles(s)]
-    if again:
+    if again and dt2 is None:
         s.dt = -s.dt
-        leg(nst)
+        s = leg(s, nst)
         out["i3"] = R.ints(s)
+    out["sim"] = s
     return out
 
 
@@ -776,19 +854,37 @@ def search_janus(c, R):
         if not in_range(parts, sp, sv, 2.0 ** 56):
             sp = sv = 1e-16
         P = inner_period(G, parts)
-        fc = gen_fc(rng, G, parts, full=(case % 2 == 1), extra=True)
+        big = (case % 97 == 13) or (c.thorough and case % 97 == 50)
+        if big:                                   # crosses the 128-entry allocation boundary of p_int / particles
+            n = rng.randint(129, 160)
+            G, parts = gen_cloud(rng, n)
+            kind = 2
+            sp = sv = 1e-16
+            P = inner_period(G, parts)
+        fc = gen_fc(rng, G, parts, full=(case % 2 == 1 and not big), extra=True)
         mode = "steps"
         if case % 2 == 1:
-            mode = rng.choice(["steps", "steps", "steps", "interleave", "integrate"])
+            mode = rng.choice(["steps", "steps", "interleave", "integrate", "save", "copy", "restore_turn"])
+        if mode in ("save", "copy", "restore_turn"):
+            # function pointers are not part of a saved / copied simulation: no callbacks in these histories
+            fc = dict(fc, cb=(), k=0.0, gravity=("basic" if fc["gravity"] == "none" else fc["gravity"]))
         dt = P / rng.choice([8, 20, 50, 150, 400]) * (1 if rng.chance(0.7) else -1)
+        longstep = kind < 2 and rng.chance(0.05)
+        if longstep:
+            dt = P * rng.uniform(1.1, 2.5) * (1 if dt > 0 else -1)
         r = rng.uniform()
         nst = rng.randint(1, 10) if r < 0.3 else (rng.randint(10, 200) if r < 0.8 else rng.randint(200, nmax))
         if kind == 2:
             nst = min(nst, 300)       # clouds can eject particles towards the edge of the int64 range
         if fc["k"] != 0 or "probe" in fc["cb"]:
             nst = min(nst, 80)        # a Python callback at every stage
+        if big or longstep:
+            nst = min(nst, 30)
         again = rng.chance(0.2)
-        o = janus_roundtrip(R, order, sp, sv, fc, parts, dt, nst, mode, again)
+        dt2 = dt * rng.choice([0.5, 0.37, 2.0, -1.5]) if (case % 2 == 1 and mode != "integrate" and rng.chance(0.25) and nst >= 2) else None
+        t0 = rng.choice([1e12, -3e11]) * abs(dt) if (case % 2 == 1 and mode != "integrate" and rng.chance(0.1)) else None
+        iname = "JANUS" if rng.chance(0.1) else "janus"
+        o = janus_roundtrip(R, order, sp, sv, fc, parts, dt, nst, mode, again, dt2=dt2, t0=t0, name=iname)
         st = o["sim"]._c10
         probe_checked += st["probe_checked"]
         if st["probe_bad"] and probe_first is None:
@@ -807,15 +903,32 @@ def search_janus(c, R):
         key = ("janus", order, n, sp, sv, min(3, int(math.log10(nst))), dt > 0, mode) + fc_class(fc)
         c.count(key, nontrivial=moved)
         moved_all += moved
+        na_eff = n if fc["nactive"] == -1 else fc["nactive"]
+        dim("janus: gravity " + ("none + additional force" if fc["gravity"] == "none" else fc["gravity"]))
+        for cond, nm in ((fc["soft"] != 0, "softening != 0"), (G != 1.0, "G != 1"), (sp != sv, "scale_pos != scale_vel"),
+                         (na_eff < n and fc["tptype"] == 0, "N_active < N, testparticle_type 0"), (na_eff < n and fc["tptype"] == 1, "N_active < N, testparticle_type 1"),
+                         (na_eff < n and any(p[0] == 0 for p in parts[na_eff:]), "massless test particles"),
+                         (na_eff < n and any(p[0] != 0 for p in parts[na_eff:]), "massive test particles"),
+                         (na_eff == 1 and n > 1, "single active body"), (any(p[0] == 0 for p in parts[1:na_eff]), "zero-mass active body"),
+                         ("pre" in fc["cb"], "callback pre_timestep_modifications"), ("post" in fc["cb"], "callback post_timestep_modifications"),
+                         ("probe" in fc["cb"], "callback additional_forces (read-only probe)"), (fc["k"] != 0, "additional force, velocity independent"),
+                         (mode == "integrate", "heartbeat + integrate()"), (dt < 0, "dt < 0 first"), (longstep, "step longer than the inner period"),
+                         (mode == "interleave", "split calls with synchronize/energy between"), (mode == "save", "save + restore mid-way"),
+                         (mode == "copy", "copy() mid-way"), (mode == "restore_turn", "restore at the turning point"), (dt2 is not None, "dt changed by the user mid-run"),
+                         (t0 is not None, "t0 huge (|t|/dt ~ 1e12)"), (kind < 2 and any(abs(v) > 0 for v in parts[0][1:]), "COM offset + boost"),
+                         (n > 128, "N > 128"), (iname == "JANUS", "integrator name upper case")):
+            if cond:
+                dim("janus: " + nm)
         hist[str(order)] = hist.get(str(order), 0) + 1
         tag = ("test-particles type %d%s" % (fc["tptype"], " massless" if any(p[0] == 0 for p in parts) else "")) if fc["nactive"] not in (-1, n) else "all active"
         tag += "; callbacks " + ",".join(fc["cb"]) if fc["cb"] else ""
         tag += "; additional force" if fc["k"] else ""
         tag += "; " + mode if mode != "steps" else ""
+        tag += "; dt changed mid-run" if dt2 is not None else ""
         tag += "; softening" if fc["soft"] else ""
         tag += "; " + fc["gravity"] if fc["gravity"] != "basic" else ""
         cfgh[tag] = cfgh.get(tag, 0) + 1
-        rep_d = dict(integrator="janus", order=order, scale_pos=sp, scale_vel=sv, G=G, fc=fc, mode=mode, dt=dt, nsteps=nst, particles=parts,
+        rep_d = dict(integrator="janus", order=order, scale_pos=sp, scale_vel=sv, G=G, fc=fc, mode=mode, dt=dt, dt2=dt2, t0=t0, nsteps=nst, particles=parts,
                      procedure="add particles; configure (N_active, testparticle_type, softening, callbacks, additional force, gravity); janus; one step with dt=0 (snap); "
                                "nsteps with dt; sim.dt=-sim.dt; nsteps; compare p_int and particle bits")
         suffix = ("-testparticles" if fc["nactive"] not in (-1, n) else "") + ("-callbacks" if (fc["cb"] or fc["k"] or mode == "integrate") else "")
@@ -827,7 +940,7 @@ def search_janus(c, R):
                         % (order, tag, nst, nst, j // 6, COMP[j % 6], d0[j], d2[j], i0[j], i2[j]), rep_d)
             if nviol >= 4:
                 break
-        if again and o["i3"] != i1:
+        if again and "i3" in o and o["i3"] != i1:
             c.violation("janus-there-back-there-order%d%s" % (order, suffix),
                         "JANUS order %d (%s): forward/back/forward does not reproduce the first forward leg" % (order, tag), rep_d)
         if case < 2:
@@ -1043,6 +1156,8 @@ def probe_kepler(c, R):
                         % ("hyperbolic e=%.3f" % e if e > 1 else "elliptic e=%.3f" % e, dt, b3[2], e2), dict(rep, error=e2))
     c.cov["kepler_primitive_solves_by(orbit,sign of dt,solver branch)"] = hits
     c.cov["kepler_primitive_not_covered"] = sorted(k for k, v in hits.items() if v == 0)
+    dim("kepler primitive: hyperbolic dt<0 bisection", hits.get("hyp - bisect", 0))
+    dim("kepler primitive: elliptic dt<0 quartic", hits.get("ell - quartic", 0))
     c.cov["kepler_primitive_worst_inverse_error_over_conditioning"] = float("%.3g" % worst_inv)
     c.cov["kepler_primitive_worst_mirror_error_over_conditioning"] = float("%.3g" % worst_mir)
     c.cov["kepler_primitive_mirror_bitwise"] = "%d of %d" % (nbit, n)
@@ -1112,6 +1227,7 @@ def search_flyby(c, R):
                 e = relerr(d0, R.doubles(s), n)
                 name = "-".join(str(v) for v in variant) + ":" + kind
                 worst[name] = max(worst.get(name, 0.0), e)
+                dim("sym: hyperbolic member" if kind == "hyp" else "sym: eccentric member, long steps")
                 lab = "hyperbolic body" if kind == "hyp" else "eccentric body"
                 solves[lab + (", dt>0 leg" if dt > 0 else ", dt<0 leg")] += nst
                 solves[lab + (", dt<0 leg" if dt > 0 else ", dt>0 leg")] += nst
@@ -1188,18 +1304,40 @@ def gen_fc_sym(rng, G, parts, variant):
     return fc
 
 
-def roundtrip(R, G, parts, variant, dt, nst):
+def roundtrip(R, G, parts, variant, dt, nst, opts=None):
+    """n steps with dt, synchronize, `sim.dt = -sim.dt`, n steps, synchronize.  opts:
+    safe=0: safe_mode off (synchronize only at the turning point and at the end); turn="restore": binary file
+    round trip at the turning point; dtfac: the user changes dt (after a synchronize) in the middle of the
+    forward leg, the backward leg mirrors it; com="boost": no move_to_com, the centre of mass is offset and
+    moving; var: a first-order variational particle with non-zero data rides along and must come back too."""
+    o = dict(safe=1, turn="sync", dtfac=None, com="moved", var=False)
+    o.update(opts or {})
     s = R.sim(G, parts, "leapfrog")
     configure(s, variant)
-    if variant[0] != "leapfrog":
+    if o["safe"] == 0 and variant[0] in ("whfast", "saba", "eos"):
+        getattr(s, "ri_" + variant[0]).safe_mode = 0
+    if o["com"] == "moved" and variant[0] != "leapfrog":
         s.move_to_com()
+    if o["var"]:
+        v = s.add_variation()
+        for i in range(len(parts)):
+            q = v.particles[i]
+            q.x, q.y, q.z = 0.3 + 0.1 * i, -0.2 + 0.05 * i, 0.01 * (i + 1)
+            q.vx, q.vy, q.vz = 0.05 * (i + 1), 0.4 - 0.1 * i, -0.02 * i
     d0 = R.doubles(s)
-    s.dt = dt
-    s.steps(nst)
+    fwd = [(dt, nst)] if o["dtfac"] is None else [(dt, nst - nst // 2), (dt * o["dtfac"], nst // 2)]
+    for d, n in fwd:
+        s.synchronize()
+        s.dt = d
+        s.steps(n)
     d1 = R.doubles(s)
     s.synchronize()
-    s.dt = -s.dt
-    s.steps(nst)
+    if o["turn"] == "restore":
+        s = reload_sim(R, s, "save")
+    for d, n in reversed(fwd):
+        s.synchronize()
+        s.dt = -d if o["dtfac"] is not None else -s.dt
+        s.steps(n)
     s.synchronize()
     return d0, d1, R.doubles(s)
 
@@ -1226,24 +1364,54 @@ def search_symmetric(c, R):
             P = inner_period(G, parts)
             dt = P / rng.choice([20, 40, 100]) * (1 if rng.chance(0.7) else -1)
             nst = rng.randint(50, 300) if moderate else rng.choice([50, 200, 500, nmax, rng.randint(20, nmax)])
+            if rng.chance(0.3):                   # G != 1: same orbits, velocities rescaled
+                G = rng.choice([4 * math.pi ** 2, 0.01])
+                for p in parts:
+                    for k3 in (4, 5, 6):
+                        p[k3] *= math.sqrt(G)
+                dt /= math.sqrt(G)
             G0 = G
-            G = gen_fc_sym(rng, G0, parts, variant) if rng.chance(0.5) else mkfc(G0)      # from here on G is the whole force configuration
+            sweep = rng.chance(0.5)
+            G = gen_fc_sym(rng, G0, parts, variant) if sweep else mkfc(G0)      # from here on G is the whole force configuration
+            opts = {}
+            if sweep:
+                if variant[0] != "leapfrog" and rng.chance(0.4):
+                    opts["safe"] = 0
+                if rng.chance(0.25) and not G["cb"] and G["k"] == 0:
+                    opts["turn"] = "restore"           # function pointers are not persisted
+                if rng.chance(0.3):
+                    opts["dtfac"] = rng.choice([0.5, 0.7, 1.5])
+                if rng.chance(0.3):
+                    opts["com"] = "boost"
+                    off = [rng.normal() * 2 for _ in range(3)] + [rng.normal() * 0.2 * math.sqrt(G0) for _ in range(3)]
+                    for p in parts:
+                        for k3 in range(6):
+                            p[1 + k3] += off[k3]
+                if (variant[0] == "leapfrog" or variant[:2] == ("whfast", "jacobi")) and G["nactive"] == -1 and rng.chance(0.5):
+                    opts["var"] = True
             if G["k"] != 0:
                 nst = min(nst, 150)
             cfgh[str(fc_class(G)[:4])] = cfgh.get(str(fc_class(G)[:4]), 0) + 1
-            d0, d1, d2 = roundtrip(R, G, parts, variant, dt, nst)
+            d0, d1, d2 = roundtrip(R, G, parts, variant, dt, nst, opts)
+            n = len(d0) // 6                       # variational particles included
             e = relerr(d0, d2, n)
             travelled = relerr(d0, d1, n)
+            for cond, nm in ((opts.get("safe") == 0, "safe_mode = 0, synchronize only at the turning point"), (opts.get("turn") == "restore", "restore at the turning point"),
+                             (opts.get("dtfac") is not None, "dt changed by the user mid-run"), (opts.get("com") == "boost", "COM offset + boost (no move_to_com)"),
+                             (G["nactive"] != -1, "massless test particles"), (bool(G["cb"]), "callbacks pre/post"), (G["k"] != 0, "additional force, velocity independent"),
+                             (opts.get("var", False), "variational particles with non-zero data"), (dt < 0, "dt < 0 first"), (G0 != 1.0, "G != 1")):
+                if cond:
+                    dim("sym: " + nm)
             name = "-".join(str(v) for v in variant)
             worst[name] = max(worst.get(name, 0.0), e)
             fam = "moderate" if moderate else "calm"
             worst_fam[fam] = max(worst_fam.get(fam, 0.0), e)
             c.count((name, n, min(3, int(math.log10(nst)))) + fc_class(G), nontrivial=travelled > 1e-3)
-            rep_d = dict(integrator=variant[0], variant=list(variant), G=G0, fc=G, dt=dt, nsteps=nst, particles=parts, error=e,
-                         procedure="add particles; configure; (move_to_com); nsteps; synchronize; sim.dt=-sim.dt; nsteps; synchronize; relative max-norm difference to the start")
+            rep_d = dict(integrator=variant[0], variant=list(variant), G=G0, fc=G, opts=opts, dt=dt, nsteps=nst, particles=parts, error=e,
+                         procedure="add particles; configure (opts: safe_mode, restore at the turning point, dt change mid-run, COM boost, variational particle); (move_to_com); nsteps; synchronize; sim.dt=-sim.dt; nsteps; synchronize; relative max-norm difference to the start")
             TOL = tol_for(nst)
             if not e <= TOL:
-                c.violation("%s-roundtrip" % name, "%s: %d steps forward and back return to the start only to %.2e (bound %.0e)" % (name, nst, e, TOL), rep_d)
+                c.violation("%s-roundtrip" % name, "%s%s: %d steps forward and back return to the start only to %.2e (bound %.0e)" % (name, (" " + json.dumps(opts)) if opts else "", nst, e, TOL), rep_d)
             elif e > 20 * nst ** 1.5 * 1.1e-16:
                 # dt-halving discriminator, for errors above the rounding level expected for this n
                 # (calibration: clean-tree errors stay below 4 n^1.5 eps) but below the bound: the reversal
@@ -1252,7 +1420,7 @@ def search_symmetric(c, R):
                 disc += 1
 
                 def scaling(pp):
-                    es = [relerr(*[roundtrip(R, G, pp, variant, dt / k, k * nst)[i] for i in (0, 2)], n) for k in (1, 2, 4)]
+                    es = [relerr(*[roundtrip(R, G, pp, variant, dt / k, k * nst, opts)[i] for i in (0, 2)], n) for k in (1, 2, 4)]
                     return es, (es[0] > 1.7 * es[1] and es[1] > 1.7 * es[2] and es[0] > 5 * es[2])
                 es, hit = scaling(parts)
                 if hit:
@@ -1269,31 +1437,80 @@ def search_symmetric(c, R):
     c.cov["symmetric_roundtrips_by_configuration(test_particles,testparticle_type,additional_force,callbacks)"] = cfgh
 
 
+def sei_roundtrip(R, om, omz, fc, parts, dt, nst, opts):
+    """opts: dtfac (dt changed mid-run), turn='restore', shear=L (shear-periodic box of size L; particles get the
+    Keplerian shear -1.5 OMEGA x added so they stream across the box)"""
+    s = sei_sim(R, om, omz, fc, parts)
+    if opts.get("shear"):
+        s.configure_box(opts["shear"])
+        s.boundary = "shear"
+        s.N_ghost_x = s.N_ghost_y = opts.get("ghost", 0)
+    d0 = R.doubles(s)
+    fwd = [(dt, nst)] if opts.get("dtfac") is None else [(dt, nst - nst // 2), (dt * opts["dtfac"], nst // 2)]
+    for d, n in fwd:
+        s.dt = d
+        s.steps(n)
+    d1 = R.doubles(s)
+    tmid = s.t
+    if opts.get("turn") == "restore":
+        s = reload_sim(R, s, "save")
+    for d, n in reversed(fwd):
+        s.dt = -d if opts.get("dtfac") is not None else -s.dt
+        s.steps(n)
+    return d0, d1, R.doubles(s), tmid
+
+
 def search_sei(c, R, rng, worst):
-    reps = 12 if c.thorough else 4
+    reps = 24 if c.thorough else 10
     nmax = 10000 if c.thorough else 1000
+    shear_g = []
     for rep in range(reps):
         n = rng.randint(2, 8)
         om, omz, G, parts = gen_sheet(rng, n)
-        fc = gen_fc_sym(rng, G, parts, ("leapfrog",)) if rng.chance(0.5) else mkfc(G)
-        s = sei_sim(R, om, omz, fc, parts)
+        opts = {}
+        kind = rep % 5
+        if kind == 1:
+            opts["dtfac"] = rng.choice([0.5, 0.7, 1.5, -0.8])
+        elif kind == 2:
+            opts["turn"] = "restore"
+        elif kind in (3, 4):
+            # shear-periodic box; kind 3 without self-gravity (asserted), kind 4 with (evidence only, see below)
+            L = rng.uniform(3.0, 6.0)
+            opts["shear"] = L
+            opts["ghost"] = rng.randint(0, 1)
+            for q in parts:
+                q[1], q[2] = rng.uniform(-L / 2, L / 2), rng.uniform(-L / 2, L / 2)
+                q[5] += -1.5 * om * q[1]
+            if kind == 3:
+                G = 0.0
+            else:
+                G = G or 1e-6
+        fc = gen_fc_sym(rng, G, parts, ("leapfrog",)) if (rng.chance(0.5) and not opts.get("shear") and opts.get("turn") != "restore") else mkfc(G)
         dt = (2 * math.pi / om) / rng.choice([20, 50, 200]) * (1 if rng.chance(0.7) else -1)
         nst = rng.choice([50, 200, nmax])
-        if fc["k"] != 0:
+        if fc["k"] != 0 or opts.get("shear"):
             nst = min(nst, 200)
-        d0 = R.doubles(s)
-        s.dt = dt
-        s.steps(nst)
-        d1 = R.doubles(s)
-        s.dt = -s.dt
-        s.steps(nst)
-        e = relerr(d0, R.doubles(s), n)
+        d0, d1, d2, tmid = sei_roundtrip(R, om, omz, fc, parts, dt, nst, opts)
+        e = relerr(d0, d2, n)
+        if opts.get("shear") and kind == 4:
+            # Wrapping happens after the step in both directions; with self-gravity summed over a finite set of ghost
+            # boxes the step does not commute with the wrap, so the round trip closes only to ~G m/L^2 dt^2: outside
+            # the property ("rounding error") — measured, not asserted.
+            shear_g.append(e)
+            c.count(None, nontrivial=False)
+            continue
         worst["sei"] = max(worst.get("sei", 0.0), e)
-        c.count(("sei", n, om, min(3, int(math.log10(nst)))), nontrivial=relerr(d0, d1, n) > 1e-3)
+        crossed = bool(opts.get("shear")) and abs(tmid) * 1.5 * om * max(abs(q[1]) for q in parts) > opts["shear"]
+        c.count(("sei", n, om, min(3, int(math.log10(nst))), tuple(sorted(opts))), nontrivial=relerr(d0, d1, n) > 1e-3)
+        for cond, nm in ((opts.get("dtfac") is not None, "dt changed by the user mid-run"), (opts.get("turn") == "restore", "restore at the turning point"),
+                         (crossed, "shear boundary crossed, no self-gravity"), (omz != om, "OMEGAZ != OMEGA")):
+            if cond:
+                dim("sei: " + nm)
         TOL = tol_for(nst)
         if not e <= TOL:
-            c.violation("sei-roundtrip", "SEI: %d steps forward and back return to the start only to %.2e (bound %.0e)" % (nst, e, TOL),
-                        dict(integrator="sei", OMEGA=om, OMEGAZ=omz, G=G, fc=fc, dt=dt, nsteps=nst, particles=parts, error=e))
+            c.violation("sei-roundtrip", "SEI%s: %d steps forward and back return to the start only to %.2e (bound %.0e)" % ((" " + json.dumps(opts)) if opts else "", nst, e, TOL),
+                        dict(integrator="sei", OMEGA=om, OMEGAZ=omz, G=G, fc=fc, opts=opts, dt=dt, nsteps=nst, particles=parts, error=e))
+    c.cov["sei_shear_box_with_self_gravity_roundtrip_error(measured, not asserted)"] = [float("%.2g" % v) for v in shear_g]
 
 
 def replay(path):
@@ -1325,18 +1542,13 @@ def replay(path):
     G = rp.get("fc") or mkfc(rp.get("G", 1.0))        # the whole force / callback configuration
     G["cb"] = tuple(G["cb"])
     if rp["integrator"] == "janus":
-        o = janus_roundtrip(R, rp["order"], rp["scale_pos"], rp["scale_vel"], G, parts, dt, nst, rp.get("mode", "steps"))
+        o = janus_roundtrip(R, rp["order"], rp["scale_pos"], rp["scale_vel"], G, parts, dt, nst, rp.get("mode", "steps"), dt2=rp.get("dt2"), t0=rp.get("t0"))
         ok = o["i2"] == o["i0"] and o["d2"] == o["d0"] and not o["flag_bad"] and not o["sim"]._c10["probe_bad"]
         print("JANUS order %d, %d steps there and back: %s (flag not clear at %d boundaries, %d stale positions at force evaluations)"
               % (rp["order"], nst, "exact" if (o["i2"] == o["i0"] and o["d2"] == o["d0"]) else "NOT exact", o["flag_bad"], o["sim"]._c10["probe_bad"]))
     elif rp["integrator"] == "sei":
-        s = sei_sim(R, rp["OMEGA"], rp["OMEGAZ"], G, parts)
-        d0 = R.doubles(s)
-        s.dt = dt
-        s.steps(nst)
-        s.dt = -s.dt
-        s.steps(nst)
-        e = relerr(d0, R.doubles(s), len(parts))
+        d0, _, d2, _ = sei_roundtrip(R, rp["OMEGA"], rp["OMEGAZ"], G, parts, dt, nst, rp.get("opts") or {})
+        e = relerr(d0, d2, len(parts))
         ok = e <= tol_for(nst)
         print("SEI %d steps there and back: error %.3e (bound %.1e)" % (nst, e, tol_for(nst)))
     elif "bound" in rp:
@@ -1361,7 +1573,8 @@ def replay(path):
         print("%s %d steps there and back: error %.3e (bound %.1e)" % ("-".join(map(str, variant)), nst, e, rp["bound"]))
     else:
         variant = tuple(rp["variant"])
-        es = [relerr(*[roundtrip(R, G, parts, variant, dt / k, k * nst)[i] for i in (0, 2)], len(parts)) for k in (1, 2, 4)]
+        rts = [roundtrip(R, G, parts, variant, dt / k, k * nst, rp.get("opts")) for k in (1, 2, 4)]
+        es = [relerr(rt[0], rt[2], len(rt[0]) // 6) for rt in rts]
         ok = es[0] <= tol_for(nst) and not (es[0] > 20 * nst ** 1.5 * 1.1e-16 and es[0] > 1.7 * es[1] and es[1] > 1.7 * es[2] and es[0] > 5 * es[2])
         print("%s %d steps there and back: error %.3e (bound %.1e); with dt/2, dt/4: %.3e %.3e" % ("-".join(map(str, variant)), nst, es[0], tol_for(nst), es[1], es[2]))
     print("replay:", "property holds on this input" if ok else "STILL FAILING")
